@@ -4,15 +4,17 @@
 (* recorded case and exports the expected outcome.                           *)
 EXTENDS Checked, TLC, Json
 
+CONSTANT Batch                      \* cases judged per TLC state (amortises queue and output overhead)
 VARIABLES i, done
 Cases == ndJsonDeserialize("cases.ndjson")
+NBatches == (Len(Cases) + Batch - 1) \div Batch
 
-WellFormed(k) == IsInt(k.a) /\ IsInt(k.b)
+Judge(k) == LET r == RefTy(k.op, k.ty, k.a, k.b)
+            IN [i |-> k.i, wf |-> IsInt(k.a) /\ IsInt(k.b), ok |-> r.ok, v |-> r.v]
 
-CInit == i \in 1..Len(Cases) /\ done = FALSE
+CInit == i \in 1..NBatches /\ done = FALSE
 CNext == /\ ~done /\ done' = TRUE /\ UNCHANGED i
-         /\ LET k == Cases[i]
-                r == RefTy(k.op, k.ty, k.a, k.b)
-            IN PrintT("EXPORT " \o ToJson([i |-> k.i, ok |-> r.ok, v |-> r.v]))
-Inputs == ~done => WellFormed(Cases[i])
+         /\ LET lo == (i - 1) * Batch + 1
+                hi == IF i * Batch < Len(Cases) THEN i * Batch ELSE Len(Cases)
+            IN PrintT("EXPORT " \o ToJson([j \in 1..(hi - lo + 1) |-> Judge(Cases[lo + j - 1])]))
 =============================================================================
